@@ -150,21 +150,64 @@ def run(ctx: Any, prog: Program) -> None:
                                 and dotted(a.value.func.value) == 'self.filename' for a in assigns)
     ctx.check('C12.W4', ok, core, assigns[0] if assigns else mt, 'the temp path must be self.filename.with_name(...): same directory as the destination, so replace() never crosses file systems',
               func='AtomicWriter.make_tempfile', text='temp is a sibling of the destination')
-    opens = [c for c in walk_no_nested(mt) if isinstance(c, ast.Call) and isinstance(c.func, ast.Attribute) and c.func.attr == 'open']
-    if not opens:
-        opens = [c for c in walk_no_nested(mt) if isinstance(c, ast.Call) and dotted(c.func) == 'open']
-    if not opens:
-        raise AnalysisError('make_tempfile: no open() call found')
-    for c in opens:
-        mode = c.args[0] if isinstance(c.func, ast.Attribute) and c.args else (c.args[1] if len(c.args) > 1 else None)
-        for k in c.keywords:
-            if k.arg == 'mode':
-                mode = k.value
-        ok = isinstance(mode, ast.Constant) and isinstance(mode.value, str) and 'x' in mode.value and 'w' not in mode.value and 'a' not in mode.value
-        ctx.check('C12.W4', ok, core, c, f'temp file opened with mode {ast.unparse(mode) if mode is not None else "?"}: exclusive creation ("x") is what keeps concurrent writers in one directory '
-                  'from clobbering each other\'s temp files', func='AtomicWriter.make_tempfile', text=f'exclusive open {ast.unparse(c)[:50]}')
+    # open() calls of make_tempfile and of the AtomicWriter helpers it calls (mode parameters resolved from the call sites)
+    def helper_calls(fn: ast.AST, seen: Set[str]) -> List[Tuple[str, ast.AST, ast.Call]]:
+        out = []
+        for c in walk_no_nested(fn):
+            if isinstance(c, ast.Call) and isinstance(c.func, ast.Attribute) and dotted(c.func.value) == 'self' and c.func.attr in aw and c.func.attr not in seen:
+                seen.add(c.func.attr)
+                out.append((c.func.attr, aw[c.func.attr], c))
+                out += helper_calls(aw[c.func.attr], seen)
+        return out
+    helpers = helper_calls(mt, {'make_tempfile'})
+    open_sites: List[Tuple[ast.AST, ast.Call, List[str]]] = []      # (function, open call, resolved modes)
+
+    def resolve_modes(fn: ast.AST, mode: Optional[ast.AST]) -> Optional[List[str]]:
+        if isinstance(mode, ast.Constant) and isinstance(mode.value, str):
+            return [mode.value]
+        if isinstance(mode, ast.BinOp) and isinstance(mode.op, ast.Add):
+            l, r = resolve_modes(fn, mode.left), resolve_modes(fn, mode.right)
+            return None if l is None or r is None else [a + b for a in l for b in r]
+        if isinstance(mode, ast.Name):
+            params = [a.arg for a in fn.args.args]
+            if mode.id in params:
+                idx = params.index(mode.id) - 1
+                vals: List[str] = []
+                for name, hfn, call in helpers:
+                    if hfn is fn:
+                        pass
+                for cfn in [mt] + [h[1] for h in helpers]:
+                    for c in walk_no_nested(cfn):
+                        if isinstance(c, ast.Call) and isinstance(c.func, ast.Attribute) and dotted(c.func.value) == 'self' and aw.get(c.func.attr) is fn:
+                            arg = c.args[idx] if 0 <= idx < len(c.args) else next((k.value for k in c.keywords if k.arg == mode.id), None)
+                            r2 = resolve_modes(cfn, arg)
+                            if r2 is None:
+                                return None
+                            vals += r2
+                return vals or None
+        return None
+    for fnx in [mt] + [h[1] for h in helpers]:
+        for c in walk_no_nested(fnx):
+            is_open = (isinstance(c, ast.Call) and isinstance(c.func, ast.Attribute) and c.func.attr == 'open') or (isinstance(c, ast.Call) and dotted(c.func) == 'open')
+            if not is_open:
+                continue
+            mode = c.args[0] if isinstance(c.func, ast.Attribute) and c.args else (c.args[1] if len(c.args) > 1 else None)
+            for k in c.keywords:
+                if k.arg == 'mode':
+                    mode = k.value
+            modes = resolve_modes(fnx, mode)
+            if modes is None:
+                raise AnalysisError(f'AtomicWriter: cannot resolve the mode of `{ast.unparse(c)[:60]}`')
+            open_sites.append((fnx, c, modes))
+    if not open_sites:
+        raise AnalysisError('make_tempfile: no open() call found (directly or in a helper)')
+    for fnx, c, modes in open_sites:
+        bad = [m for m in modes if 'x' not in m or 'w' in m or 'a' in m or '+' in m and 'x' not in m]
+        ctx.check('C12.W4', not bad, core, c, f'temp file may be opened with mode(s) {bad or modes}: exclusive creation ("x") is what keeps concurrent writers in one directory '
+                  'from clobbering each other\'s temp files (a remembered name may meanwhile belong to another writer)', func=f'AtomicWriter.{getattr(fnx, "name", "?")}',
+                  text=f'exclusive open {ast.unparse(c)[:50]}')
         ok = dotted(c.func.value) == 'self._temp_name' if isinstance(c.func, ast.Attribute) else False
-        ctx.check('C12.W4', ok, core, c, 'only the temp path may be opened', func='AtomicWriter.make_tempfile', text=f'open target {ast.unparse(c.func)[:40]}')
+        ctx.check('C12.W4', ok, core, c, 'only the temp path may be opened', func=f'AtomicWriter.{getattr(fnx, "name", "?")}', text=f'open target {ast.unparse(c.func)[:40]}')
     tries = [n for n in walk_no_nested(mt) if isinstance(n, ast.Try)]
     ok = len(tries) == 1 and len(tries[0].handlers) == 1 and dotted(tries[0].handlers[0].type) == 'FileExistsError'
     ctx.check('C12.W4', ok, core, tries[0] if tries else mt, 'the name search may only continue on FileExistsError (any other error must propagate)', func='AtomicWriter.make_tempfile', text='retry only on FileExistsError')
@@ -205,6 +248,7 @@ def run(ctx: Any, prog: Program) -> None:
 
 
 MUTANTS = [
+    {'id': 'reopen_remembered_name', 'file': '__init__.py', 'find': "        for i in _itertools.count(start=1):\n            self._temp_name = self.filename.with_name(f'tmp_{i}')", 'replace': "        if self._temp_name is not None:\n            self.temp = self._temp_name.open('wb')\n            return\n        for i in _itertools.count(start=1):\n            self._temp_name = self.filename.with_name(f'tmp_{i}')", 'expect': 'C12.W4'},
     {'id': 'truncate_destination_first', 'file': '__init__.py', 'find': "        # Create folders if needed.\n        self.filename.parent.mkdir(parents=True, exist_ok=True)\n", 'replace': "        # Create folders if needed.\n        self.filename.parent.mkdir(parents=True, exist_ok=True)\n        self.filename.unlink(missing_ok=True)\n", 'expect': 'C12.W1'},
     {'id': 'never_closed_before_replace', 'file': '__init__.py', 'find': "                temp, self.temp = self.temp, None\n                temp.__exit__(exc_type, exc_value, tback)\n", 'replace': "                temp, self.temp = self.temp, None\n", 'expect': 'C12.W2'},
     {'id': 'commit_even_on_error', 'file': '__init__.py', 'find': "            if exc_type is None:\n                # No exception, commit changes\n                self._temp_name.replace(self.filename)", 'replace': "            if exc_type is None or exc_type is KeyboardInterrupt:\n                # No exception, commit changes\n                self._temp_name.replace(self.filename)", 'expect': 'C12.W2'},
